@@ -150,6 +150,10 @@ def run(rep, tier, seed, replay=None):
         line, exp_res, seeds = paging_case(cid, rnd, True)
         cases.append(line)
         pexp[cid] = (exp_res, seeds)
+    # the `master` family's own generator (Lean, props/families/master.py): histories x filter sets x regions x both query modes
+    fam_valids = {v.id: v for v in netprops.valid_cases("master", seed + 16, 150 if tier == "quick" else 3000)}
+    cases += [v.line for v in fam_valids.values()]
+    rep.count("family:master", len(fam_valids))
     illformed = []
     for i in range(150 if tier == "quick" else 3000):
         line, _, _ = paging_case(f"x{i}", rnd, False)
@@ -178,6 +182,13 @@ def run(rep, tier, seed, replay=None):
                 got_seeds.append(bytes.fromhex(parts[1][1:]).decode("latin-1") if len(parts) > 1 else s)
             if got_seeds != seeds:
                 out.append(("paging-seeds", f"follow-up requests seeded with {got_seeds}, expected {seeds}"))
+        elif cid in fam_valids:
+            v = fam_valids[cid]
+            got = vlib.result_of(impl)
+            if got != v.want:
+                out.append(("paging-result", f"result differs from the history's listed addresses: got {got[:200]} expected {v.want[:200]}"))
+            if sends != v.sent():
+                out.append(("master-requests", f"requests {sends} differ from the expected {v.sent()}"))
         return out
 
     vlib.correspond(rep, netprops.corpus("C16") + cases + illformed, oracle=oracle, trivial=netprops.trivial, tag="c16")
